@@ -6,10 +6,10 @@ ROOT = os.path.dirname(os.path.dirname(os.path.abspath(__file__)))
 RUST_NOTE = "Rust core compiled unmodified from /repo's working tree through rust/core-shadow (features perfetto/cli off, snapshot via the local zip shim); the harness binary is a thin JSON adapter."
 CHECKS = {
  # id: (technique, level text, level_note, design_ref)
- "C01": ("exhaustive enumeration of structural instruction heads + Hypothesis raw bytes / decode histories; oracle: totality, length bounds, trailing-byte and history independence, cross-consumer agreement",
+ "C01": ("exhaustive enumeration of structural instruction heads + Hypothesis raw bytes / decode histories + routine sweeps into a shared IL function, streamed decodes, landmark operand values and a harness-owned thread schedule; oracle: totality, length bounds, trailing-byte and history independence, cross-consumer agreement",
          "Exploration: the structural part of the input space (prefix x opcode x second byte, ~1.05M heads) is enumerated completely in the thorough tier (stratified 1/16 + all operand-validating opcodes in quick); remaining operand bytes, addresses, truncations, hostile tails and decode histories are generated. Finds any consumer disagreement or escaping exception on the explored inputs; does not prove absence for unexplored tails.",
          "Trusts binja_test_mocks (mock Binary Ninja API) and the harness's reading of 'emulator fetch path' = Emulator.decode_instruction."),
- "C02": ("exhaustive enumeration of structural heads x don't-care tail patterns; round-trip oracle encode(decode(b)) == consumed bytes, re-decode equality, guard-never-demotes",
+ "C02": ("exhaustive enumeration of structural heads x don't-care tail patterns + streamed sequences, landmark operands, rejected-operation-first histories and a harness-owned thread schedule; round-trip oracle encode(decode(b)) == consumed bytes, re-decode equality, guard-never-demotes",
          "Exploration: every structural head (complete in thorough, 1/8 stratified in quick) with three tails exercising ignored bits is decoded, re-encoded and compared byte for byte; the text callback's round-trip guard must accept whatever the info callback accepts.",
          "Domain = byte strings the info callback accepts; IL equality is structural equality of mock-LLIL reprs."),
  "C03": ("generated (encoding, state) pairs; reference operand-location model driven by the rendered token stream vs logged memory callbacks and register deltas",
@@ -18,19 +18,19 @@ CHECKS = {
  "C04": ("complete enumeration of 8-bit operand pairs x carry (2^17 per operation) + boundary/random wide operands; README-derived executable reference semantics + frame condition",
          "Exploration: 8-bit ALU value space enumerated completely in thorough; other encodings and widths by boundary grids and random sampling; destination, C/Z (only where documented), side effects and 'nothing else changes' compared with the reference.",
          "Where README, code comments and maintainers' tests disagree only the agreed part is asserted (DESIGN appendix B)."),
- "C05": ("grid enumeration of control-flow encodings x addresses x flags x operands + generated call/return pairs; static InstructionInfo vs executed PC, inverse-pair law",
+ "C05": ("grid enumeration of control-flow encodings x addresses x flags x operands (incl. landmark targets) + generated call/return programs on the Python and Rust executors with generated stack placement + long-lived-executor histories over rewritten code; static InstructionInfo vs executed PC, inverse-pair law",
          "Exploration: all branch/call/return encodings over page-boundary and interior addresses and all flag values; non-branch encodings sampled for the fall-through direction; call..ret and IR..RETI pairs with generated stack-neutral bodies.",
          "Python core only (the metadata is Python); execution through the repository's own emulator."),
  "C06": ("differential testing Python emulator vs Rust LLAMA executor on generated (encoding, state) pairs over an identical hash-filled bus, plus lockstep programs",
          "Exploration: every decoder-accepted structural head (thorough) / every (prefix, opcode) pair (quick) is executed once on both cores from a generated state and compared field by field (registers, flags, PC, length, power state, final memory); generated straight-line programs are run in lockstep.",
          RUST_NOTE + " Each core is paired with the address canonicalisation of its own project memory model; TEMP registers and call bookkeeping are not compared."),
- "C07": ("metamorphic testing: history-then-probe vs fresh core, N+M splits, twin emulators, per core",
+ "C07": ("metamorphic testing: history-then-probe vs fresh core, N+M splits, twin emulators, per core; machine-level state transfer to a fresh machine (Rust and Python), converging histories, assembler history vs pristine process",
          "Exploration: generated execution histories (instructions, TEMP junk, call bookkeeping) followed by a probe instruction from a re-imposed architectural state must equal a fresh core's result; all split points of generated runs; twin-trace equality.",
          RUST_NOTE),
  "C08": ("Hypothesis stateful/sequence generation of register writes/reads/snapshot round trips against a reference register-file model; Python<->Rust differential",
          "Exploration: generated write/read sequences with boundary-biased 32-bit values on both register files, compared with a reference model after every step; snapshot/apply round trips.",
          RUST_NOTE),
- "C09": ("round-trip testing disassemble -> assemble -> disassemble on generated accepted encodings, behavioural equivalence on a generated state, idempotence",
+ "C09": ("round-trip testing disassemble -> assemble -> disassemble on generated accepted encodings, behavioural equivalence on a generated state, idempotence; listings on reused assemblers (also after rejected programs), linear sweeps, first-use start-up under a harness-owned schedule",
          "Exploration: texts rendered from decoder-accepted encodings (all opcodes x prefixes x mode bytes) are fed to the assembler; result must re-disassemble to the same text, behave identically and be a fixed point.",
          "Text normalisation is the one the statement prescribes; byte equality is not required."),
  "C10": ("grammar-based program generation (Hypothesis) + layout reference model, per-statement standalone equivalence, determinism over assemble() call histories",
@@ -42,7 +42,7 @@ CHECKS = {
  "C12": ("scenario generation (ROM programs x event schedules) with a step-boundary monitor; depth-bounded complete enumeration of short event sequences",
          "Exploration: the harness owns the schedule, so interleavings of timer expiries, key events and IMR/ISR writes relative to instruction boundaries are generated inputs; gate, frame, no re-entry, RETI restore, not-lost, halt/off rules monitored per model.",
          RUST_NOTE + " 'Promptly' is checked as a bounded-response property with the bound taken from the step loops."),
- "C13": ("complete enumeration of small period pairs + sampled large periods x generated monotone cycle sequences; arithmetic reference + Python<->Rust differential",
+ "C13": ("complete enumeration of small period pairs + sampled large periods x generated monotone cycle sequences; arithmetic reference + Python<->Rust differential; machine-level runs incl. bulk run(n)/step(n) vs single stepping",
          "Exploration: per-cycle and gapped tick sequences with reset/restore points; exactly-once-per-boundary, next-target-in-future, ISR bit, disabled/zero-period and cross-implementation equality.",
          RUST_NOTE),
  "C14": ("Hypothesis stateful testing of key/strobe/scan/read histories with history invariants (KIL safety/visibility, per-key event grammar, FIFO bound, KEYI gating), per model",
